@@ -53,7 +53,8 @@ def wedgeWorld : World :=
       st := { conds := [⟨.created, true, rTrialCreated, 1⟩, ⟨.earlyStopped, true, rTrialES, 2⟩, ⟨.running, false, rTrialRunning, 3⟩,
                         ⟨.metricsUnavailable, true, rTrialMU, 3⟩],
               completion := some 3, started := true,
-              obs := Metrics.getMetrics [{ metric := "acc", text := "unavailable", key := none, ts := some 2 }] ["acc"] } }
+              obs := (Metrics.getMetrics [{ metric := "acc", text := "unavailable", key := none, ts := some 2 }] ["acc"]).map
+                       (fun ms => ms.map (fun m => { m with lastTs := none })) } }
   { exps := [{ key := k, fin := true, par := 1, maxT := some 2, maxF := none,
                cfg := { goal := none, objType := .maximize, resume := .longRunning, es := true, retain := true, push := false, labels := false },
                st := { conds := [⟨.created, true, rCreated, 1⟩, ⟨.running, true, rRunning, 2⟩], started := true,
